@@ -49,7 +49,7 @@ _LIB = None
 
 
 def classes(tier):
-    return ["sparse", "hermitian", "from_matrix", "reverse", "expectation"]
+    return ["sparse", "hermitian", "from_matrix", "reverse", "expectation", "history"]
 
 
 # ----------------------------------------------------------------------------- oracle helpers
@@ -712,6 +712,57 @@ def run_case(ctx):
         tol = 1e-12 * max(1.0, D.abs_sum(tl)) + (0.0 if regime == "dyadic" else 2e-8 * (len(tl) + 1))
         ctx.check("reverse-twice-identity", dd <= tol,
                   lambda: f"reversing {op!r} twice on {n} qubits gives {twice!r} (matrix differs by {dd:.3e})")
+        return
+
+    if cls == "history":
+        # several conversions in one process of operators that agree in everything a too-coarse memo key could look
+        # at (Pauli strings, hash bucket / tolerance-equality of the coefficients, object identity, width) and
+        # differ by more than the oracle's tolerance; every call is judged by the hooks
+        spec = _as_list(_operator_spec(rng, "generic", allow_empty=False, top=4, kmax=3))[:3]
+        spec = [(ops, c if abs(c) > 0.05 else 0.5) for ops, c in spec] or [(((0, "Z"),), 0.5)]
+        w = max(1, _spec_width(spec))
+        mode = rng.choice(["coeff", "width", "reverse-flag", "same-object", "short-lived"])
+        ctx.describe(f"history {mode} {G.fmt(spec)} w={w}", True)
+        psi = L.random_state(nprng, 2 ** w)
+        wf = Wavefunction(psi)
+
+        def variant(delta):
+            v = [(ops, c + delta * (1 if i == 0 else 0)) for i, (ops, c) in enumerate(spec)]
+            return _build(v if len(v) > 1 or rng.random() < 0.5 else v[0])
+
+        if mode == "coeff":
+            for delta in (0.0, 2e-7, -4e-7, 3e-6, 0.0):
+                op = variant(delta)
+                get_sparse_operator(op, w)
+                get_expectation_value(op, wf)
+                hermitian_conjugated(op)
+                reverse_qubit_order(op, w)
+        elif mode == "width":
+            op = variant(0.0)
+            for n in (w, w + 1, w + 2, w, w + 1):
+                if n <= MAXN:
+                    get_sparse_operator(op, n)
+                    reverse_qubit_order(op, n)
+        elif mode == "reverse-flag":
+            op = variant(0.0)
+            for rev in (False, True, False, True):
+                get_expectation_value(op, wf, rev)
+        elif mode == "same-object":
+            op = variant(0.0)
+            for _ in range(2):
+                get_sparse_operator(op, w)
+                get_expectation_value(op, wf)
+                is_hermitian(op)
+                hermitian_conjugated(op)
+            psi2 = L.random_state(nprng, 2 ** w)
+            get_expectation_value(op, Wavefunction(psi2))
+        else:
+            # operators that die immediately: an address-keyed memo would meet recycled ids
+            for k in range(6):
+                op = variant(0.125 * k)
+                get_sparse_operator(op, w)
+                get_expectation_value(op, wf)
+                del op
         return
 
     if cls == "expectation":
